@@ -170,6 +170,16 @@ Transformations ==
 OutputOptions == { <<>>, <<"-q">>, <<"-v">>, <<"--varnames">>, <<"-q", "--varnames">>,
                    <<"--output-format", "dimacs">>, <<"-of", "opb">>, <<"-of", "latex">> }
 
+\* how the output format is chosen: an explicit request wins, otherwise the extension of the
+\* output file name, otherwise DIMACS (documented in guess_output_format)
+GuessFormat(req, ext) ==
+    IF req \in {"latex", "dimacs", "opb"} THEN req
+    ELSE IF req = "none" THEN (CASE ext = "tex" -> "latex" [] ext = "opb" -> "opb" [] OTHER -> "dimacs")
+    ELSE "ValueError"
+FormatCases == {[req |-> q, ext |-> e, named |-> nm, expect |-> GuessFormat(q, IF nm THEN e ELSE "")] :
+                   q \in {"none", "latex", "dimacs", "opb", "tex", "xyz"},
+                   e \in {"tex", "opb", "cnf", "", "txt", "TEX", "dimacs"}, nm \in BOOLEAN}
+
 -----------------------------------------------------------------------------
 (* Part 2: the pipeline                                                     *)
 
